@@ -34,6 +34,20 @@ CAUGHT = {
  "C13-3": ("C13", "C13 read: wrong number of callers woke on a socket read error (listener closed first)"), "C13-4": ("C13", "C13 ...: first deadline set while blocked"),
  "C15-3": ("C15", "C15 session references a pooled buffer after it was recycled"), "C15-4": ("C15", "C15 scheduled callback still pending / goroutine alive (backlog overflow shutdown)"),
  "C19-1": ("C19", "C19 out-of-band message delivered to another session"), "C19-2": ("C19", "C19 session without FEC accepted SendOOB"),
+ "C03-3": ("C03", "C03 transfer did not resume and complete after the reader resumed"), "C03-4": ("C03", "C03 transfer did not resume and complete after the reader resumed"),
+ "C05-3": ("C05", "C05 child died: panic: slice bounds out of range [2:0] / [2:1]"), "C05-4": ("C05", "C05 child died: panic: index out of range [3] with length N"),
+ "C10-3": ("C10", "C10 child died: panic slice bounds [:N] with capacity N / AEAD Seal allocated new slice"), "C10-4": ("C10", "C10 core packet larger than the MTU after SetMtu shrank it; panic in flush"),
+ "C08-3": ("C08", "C08 salsa20 encrypt/decrypt vs reference, separate buffers"), "C08-4": ("C08", "C08 child died: data race reported by the race detector (shared SM4 instance)"),
+ "C12-3": ("C12", "C12 FEC encoder: malformed group near the id wrap (skipped parity)"), "C12-4": ("C12", "C12 shifted run ends differently / normalised traces differ"),
+ "C14-3": ("C14", "C14 data race: rngAES.Read / rngChacha8.Read vs reseed (forced reseeds)"), "C14-4": ("C14", "C14 data race: encrypt8 / encrypt16 between sessions of one listener"),
+ "C16-3": ("C16", "C16 decoder did not adopt the sender's ratio within 258+2(d+p) (d+p = 255)"), "C16-4": ("C16", "C16 session decoder did not adopt the peer's ratio; stream not delivered intact"),
+ "C17-3": ("C17", "C17 task never ran (far-future deadline beyond UnixNano's range)"),
+ "C18-3": ("C18", "C18 retransmission timeout outside [minimum, 60s]; data segment transmitted more than once (nodelay=-1 retune)"), "C18-4": ("C18", "C18 retransmission counters moved on a clean path"),
+ "C19-3": ("C19", "C19 [C15 pooled buffer recycled twice for one acquisition: SendOOB then SendOOB]"), "C19-4": ("C19", "C19 oversize out-of-band payload accepted"),
+ "C20-3": ("C20", "C20 Pop: queue model mismatch (slot retains element)"), "C20-4": ("C20", "C20 ForEachReverse: queue model mismatch"),
+}
+NOTE = {
+ "C17-4": "not kept: on the tree before fix 3121c8c this change could not be told apart from the unchanged scheduler's own lateness (S19, found by the busy-worker part written for it); with S19 repaired the change no longer alters behaviour and its demonstration passes",
 }
 CAUGHT.update(json.load(open(os.path.join(V, "tools", "seeded_extra.json"))) if os.path.exists(os.path.join(V, "tools", "seeded_extra.json")) else {})
 for d in sorted(glob.glob(os.path.join(V, "seeded", "*"))):
@@ -45,6 +59,8 @@ for d in sorted(glob.glob(os.path.join(V, "seeded", "*"))):
     if mid in CAUGHT:
         m["caught_by_check"], m["violation_key_seen"] = CAUGHT[mid]
         m["how_checked"] = "tools/try_mutant.sh seeded/%s/patch.diff <check> (git -C /repo apply; ./check <check> quick; git -C /repo checkout -- .)" % mid
+    if mid in NOTE:
+        m["note"] = NOTE[mid]
     if os.path.exists(os.path.join(d, "patch.orig.diff")):
         m["ported"] = "patch.diff was re-based on /repo after fix: commits touched the same lines; patch.orig.diff is the sub-agent's original"
     json.dump(m, open(mp, "w"), indent=1)
